@@ -17,6 +17,7 @@ def main():
         if o not in engs: engs[o] = api.load_engine(mods[o])
         return engs[o]
     jobs = scen.jobs(tier, 0)
+    for j in jobs: j['opts_levels'] = list(opts)
     for j in jobs:
         if filt and not eval(filt, {}, dict(j.get('cfg', {}), job=j)): continue
         t = time.time()
